@@ -42,12 +42,25 @@ for f in sorted(glob.glob(os.path.join(V, "known_findings", "C*.json"))):
 w("")
 w("### AB.6 Which check catches which change\n")
 w("**Independently written breaking changes** (`seeded/<id>/`: written by sub-agents that saw only the property text and a scratch")
-w("worktree; each confirmed by me: repository suite green with the patch, demo fails with it and passes without it; `lib/seed_sweep.sh` re-runs all of them):\n")
-w("| id | property | what it needs to manifest | result |")
-w("|---|---|---|---|")
+w("worktree; each confirmed by me: repository suite green with the patch, demo fails with it and passes without it; `lib/seed_sweep_par.sh` re-runs all of them; the last column is its result on the final tree):\n")
+w("| id | property | round | the change (title of its README) | result at ingestion -> after strengthening | final sweep |")
+w("|---|---|---|---|---|---|")
+def seed_title(dirname, m):
+    if m.get("needs_to_manifest", "").strip() not in ("", "(see README.md)"):
+        return m["needs_to_manifest"]
+    try:
+        lines = [l.strip() for l in open(os.path.join(dirname, "README.md"), encoding="utf-8", errors="replace")]
+    except OSError:
+        return ""
+    lines = [l for l in lines if l and not l.startswith("PKG:") and not l.startswith("PROP:")]
+    for l in lines:
+        if l.startswith("#"):
+            return l.lstrip("# ").strip()
+    return lines[0] if lines else ""
 for d in sorted(glob.glob(os.path.join(V, "seeded", "*", "meta.json"))):
     m = json.load(open(d))
-    w("| %s | %s | %s | %s |" % (m["id"], m["breaks_property"], m["needs_to_manifest"].replace("|", "/"), m["check_result"].replace("|", "/")))
+    w("| %s | %s | %s | %s | %s | %s |" % (m["id"], m["breaks_property"], m.get("round", 1), seed_title(os.path.dirname(d), m).replace("|", "/")[:300],
+                                     m["check_result"].replace("|", "/"), m.get("final_sweep", "").replace("|", "/")))
 w("")
 w("**Mutants written by the builders of the checks** (`mutants/Cxx/*.diff` runnable with `lib/mutants.sh Cxx mutants/Cxx/*.diff`; the ones tried by the engine builders are listed in `notes/`):\n")
 for d in sorted(glob.glob(os.path.join(V, "mutants", "C*"))):
